@@ -19,11 +19,11 @@ const (
 	ReprLength         = 32
 	AuthLength         = 32
 
-	ClientMinHandshake = ReprLength + MarkLength + MacLength              // 64
-	ServerMinHandshake = ReprLength + AuthLength + MarkLength + MacLength // 96
-	SeedFrameLength    = 2 + 16 + 3 + 24                                  // 45: unpadded PRNG seed frame
+	ClientMinHandshake = ReprLength + MarkLength + MacLength                       // 64
+	ServerMinHandshake = ReprLength + AuthLength + MarkLength + MacLength          // 96
+	SeedFrameLength    = 2 + 16 + 3 + 24                                           // 45: unpadded PRNG seed frame
 	ClientMinPad       = ServerMinHandshake + SeedFrameLength - ClientMinHandshake // 77 (deployed)
-	ClientMaxPad       = MaxHandshakeLength - ClientMinHandshake          // 8128
+	ClientMaxPad       = MaxHandshakeLength - ClientMinHandshake                   // 8128
 	ServerMinPad       = 0
 	ServerMaxPad       = MaxHandshakeLength - (ServerMinHandshake + SeedFrameLength) // 8051
 
@@ -217,6 +217,20 @@ func BuildServerResponse(br Bridge, key Keypair, clientRepr [32]byte, pad []byte
 	b.Write(MarkMac(br.Pub, br.NodeID, key.Repr[:]))
 	b.Write(MarkMac(br.Pub, br.NodeID, b.Bytes(), []byte(hour)))
 	return b.Bytes(), newSession(seed), nil
+}
+
+// BuildServerResponseForged is BuildServerResponse by a peer that does not
+// hold the identity private key and uses e2 in place of EXP(X,b).
+func BuildServerResponseForged(br Bridge, key Keypair, clientRepr [32]byte, pad []byte, hour string, e2 [32]byte) ([]byte, *Session) {
+	X := Ell2Decode(clientRepr)
+	seed, auth := NtorServerForged(key.Priv, key.Pub, e2, br.Pub, X, br.NodeID)
+	var b bytes.Buffer
+	b.Write(key.Repr[:])
+	b.Write(auth[:])
+	b.Write(pad)
+	b.Write(MarkMac(br.Pub, br.NodeID, key.Repr[:]))
+	b.Write(MarkMac(br.Pub, br.NodeID, b.Bytes(), []byte(hour)))
+	return b.Bytes(), newSession(seed)
 }
 
 // ---------------------------------------------------------------- framing
